@@ -547,6 +547,24 @@ def handleNum (args : List String) : String :=
       | .ok p => "ok " ++ p.s
       | .error _ => "err"
     | _, _ => "bad-op"
+  | ["float", l, r, li, ri] =>
+    -- bounds as decimal text (`-12.5`, `3`, `0.001`) or `none`
+    let fb := fun (x : String) => if x = "none" then some none else
+      let neg := x.startsWith "-"
+      let y := if neg then (x.drop 1).toString else x
+      match y.splitOn "." with
+      | [ip] => ip.toNat?.map (fun n => some ({ neg := neg, ip := n, fd := [] } : FB))
+      | [ip, fd] => do
+        let n ← ip.toNat?
+        let ds ← fd.toList.mapM (fun c => if c.isDigit then some (c.toNat - 48) else none)
+        pure (some { neg := neg, ip := n, fd := ds })
+      | _ => none
+    match fb l, fb r with
+    | some l, some r =>
+      match rxFloatRange l r (li = "1") (ri = "1") with
+      | .ok p => "ok " ++ p.s
+      | .error _ => "err"
+    | _, _ => "bad-op"
   | ["lcm", c1, e1, c2, e2] =>
     match parseNat? c1, parseNat? e1, parseNat? c2, parseNat? e2 with
     | some c1, some e1, some c2, some e2 =>
